@@ -22,6 +22,10 @@ CLAIMED = {
          "Seeded search over route configurations (1-3 hops each way; bandwidth 0 or 5 kB/s-50 MB/s; latency 0-500 ms; capacity unlimited or from one segment to 4 MB; bottleneck at either end or in the middle), transfer lengths up to 2 MB and write/read size patterns, drops produced only by the queues. Whenever run() returns on its own with both sockets open: delivered == accepted, no write pending, every offered byte accepted; a watchdog reports livelock; connects with an accept outstanding complete.", "3.6"),
  "C20": ("tcp", "exploration", "deterministic simulation: per-pair MTU tables with probes on every hop, UDP don't-fragment states",
          "Seeded search over path-MTU values 64-9000, TCP transfers in both directions with write sizes around multiples of the MTU (probes on every hop: no segment above the MTU, every segment identical at every hop to one the sender transmitted) and UDP sends of MTU-2..MTU+2 / 65535 / small with don't-fragment never touched, set through IP_MTU_DISCOVER or IP_DONTFRAGMENT, or cleared, over a loss-free route so that exactly the expected datagrams must arrive whole.", "3.20"),
+ "C07": ("conn", "exploration", "deterministic simulation: seeded connect/accept/close histories vs pairing and endpoint oracle",
+         "Seeded search over numbers of clients and acceptors, orders and timings of listen / async_accept (all three overloads, before or after the SYN arrives, into fresh or reused sockets) / async_connect (to listening, closed and never-listening endpoints) / close, on single- and multi-homed, IPv4/IPv6 nodes with and without NAT and varied route latencies. History oracle: success implies a listener at issue time; successes and accepts pair one-to-one in SYN arrival order (taken from the probe in front of the acceptor); refused connects complete with connection_refused after a positive delay; endpoint equalities; tag bytes only at the paired socket.", "3.7"),
+ "C13": ("conn", "exploration", "deterministic simulation: NAT placements with a pass-through control run (metamorphic timing check)",
+         "The C07 generator with NAT hops in outgoing routes (none, connector side, acceptor side, both, several nodes behind one external address) plus UDP datagram exchanges. Oracle: receiver-visible source is the NAT external address with the sender's port in all three places the statement names, the real address without NAT; sender's local endpoint, payload and per-flow order unchanged; and every completion happens at the same virtual time, with the same result, as in a control run of the same plan with each NAT replaced by a synchronous pass-through hop.", "3.13"),
 }
 
 NOT_YET = "not claimed yet: the engine for this property is still under construction in this tree"
